@@ -43,7 +43,9 @@ def seeded_table():
         text = text.replace('|', '/').replace('\n', ' ')
         checks = c.get('checks', {})
         caught = ', '.join(k for k, v in checks.items() if v['rc'] == 1) or 'MISSED'
-        if m.get('first_outcome'):
+        if m.get('first_outcome') == 'not-covered':
+            caught = 'not covered: outside the statement'
+        elif m.get('first_outcome'):
             caught += ' (after strengthening)'
         mechs = '; '.join(','.join(v['mechanisms'][:2]) for v in checks.values())
         print(f"| {sid} | {m.get('property')} | {text} | {'yes' if c.get('valid_seed') else 'NO'} | {caught} | {mechs[:120]} |")
